@@ -134,4 +134,39 @@ PROPS = {
             ],
         },
     },
+    "C04": {
+        "target": "c04",
+        "tiers": {
+            "quick": {"count": 4000000, "budget_s": 40, "workers": 16, "recheck": 100},
+            "thorough": {"count": 200000000, "budget_s": 900, "workers": 16, "recheck": 200},
+        },
+        "describe": {
+            "rule": ("one run = one seeded plan: handler flags (random subset of 17 HandleFlags, always with hfUsageCont), a set-up from the "
+                     "recipe menu incl. positional argument and sub-group, optional argument-file argument and explicitly named "
+                     "environment variable; program name of length 0..300 (empty, '/', only slashes, trailing slash, random bytes); up "
+                     "to 16 (quick) / 24 (thorough) words from three generators (random bytes 1..255, words made of - = ( ) ! only, "
+                     "grammar-aware mutations of a rule-obeying line); program-name file / argument file present, absent, a directory, "
+                     "unreadable, HOME unset, with content from valid lines, mutated lines, random bytes incl. NUL, lines of 1000..4000 "
+                     "characters, with or without final newline; environment variable absent, empty, valid or hostile; reads chunked "
+                     "to 1..64 bytes, short reads, EINTR, EIO at the n-th read, EACCES/ENOENT/EISDIR at the n-th open. Each evaluation "
+                     "runs under ASan + UBSan with a step budget of 3*10^7 control-flow edges; exit()/abort()/assert are trapped. "
+                     "Non-trivial: the evaluation opened a source file or read a non-empty environment variable. Distinct: distinct "
+                     "hashes over outcome record (return/exception, destination values, output) and every simulated file-system call."),
+            "sim_time_unit": "none (no clock in this property)",
+            "state_measure": "distinct (program-name file state, environment variable state, outcome class) tuples",
+            "distinct_measure": "distinct (outcome record, file-system call sequence) hashes",
+            "components": {
+                "real": ["celma::prog_args::Handler, ArgListParser/ArgListIterator, ArgumentKey, TypedArg<...>, Groups singleton (usage)",
+                         "celma::appl::ArgString2Array", "libstdc++ std::ifstream / std::getline", "clang 14 ASan + UBSan subset inside every run"],
+                "stub": [STUB_FS, "environment block (getenv overlay)", "exit()/abort()/__assert_fail() (turned into run outcomes)"],
+            },
+            "assumptions": [
+                "argc >= 1 (a C main() always has argv[0]); words end at their first NUL byte",
+                "allocation failures are not injected (the property quantifies over vectors and sources)",
+                "termination is decided by a deterministic step budget (instrumented control-flow edges), not by wall-clock time",
+                "nothing is asserted about which of return/exception happens (that is C01-C03)",
+                "sampling, not enumeration",
+            ],
+        },
+    },
 }
